@@ -61,6 +61,10 @@ func TestReplayDetector(t *testing.T) {
 				mc.TempThreshMax = 0
 			}
 		}
+		if !mc.DynamicThreshold && rng.Intn(3) == 0 {
+			// a fixed threshold next to non-zero dynamic bounds: the bounds must be ignored (C07, C08)
+			mc.TempThreshMin, mc.TempThreshMax = uint16(rng.Intn(3)*(5+rng.Intn(10))), uint16(rng.Intn(3)*(5+rng.Intn(10)))
+		}
 		preview := rng.Intn(3)
 		d := NewMotionDetector(mc, preview, cam)
 		d2 := NewMotionDetector(mc, preview, cam) // C08: fed the same stream with border (and cold) pixels changed
